@@ -94,6 +94,17 @@ CLAIMED.update({
    design="§7 C05", technique="contract-based deductive verification, zero-annotation frame sweep (assigns / ownership obligations; SMT)"),
 })
 
+CLAIMED.update({
+ "C04": dict(
+   text="Proof of the per-thread SUFFICIENT CONDITIONS for race freedom, not of interleavings: (1) the goroutine body of checkFile writes only its own result slot warnings[i] and "
+        "the warning buffer of its own checker (frame obligations), the slots are empty before the spawn, and between `go` and wg.Wait() the parent touches nothing the goroutines may write "
+        "(structural obligation on the spawn-to-join window); (2) the checkers of one run are pairwise distinct freshly constructed objects (initCheckers); (3) every access to the "
+        "analyzer's process-wide cache (globalGocritic, globalInitErrorReported) happens with the mutex held (ghost lock state, deferred Unlock); (4) every constructor stores only state it "
+        "allocated itself into a new checker (parser, engine, maps, slices): no mutable object is shared between checker instances; (5) checkers write only their own state (property C05, "
+        "whose frame Check assumes). That disjoint write sets imply data-race freedom and sequentially consistent results is the standard meta-theorem and is not machine-checked here.",
+   design="§7 C04", technique="contract-based deductive verification of frames, ownership and lock discipline (sufficient conditions; SMT)"),
+})
+
 NA_REASON_PENDING = "check not built yet in this round (planned, DESIGN §7); not claimed until its obligations discharge"
 NOT_APPLICABLE = {
  "C11": "no contract within reach can state equality of Go-regexp match behaviour between a pattern and the string printed from a third-party parse tree (DESIGN §8)",
